@@ -144,6 +144,19 @@ def drive_case(case):
             _first = res.resolve(names)
             composed = res.resolve(list(reversed(names)))
             b = Plain(composed)
+        elif op == "resolve_decorated":  # pipelines given as functions registered with the Pipeline decorator
+            from sigma.pipelines.base import Pipeline
+
+            def deco(p):
+                @Pipeline
+                def gen():
+                    return p
+
+                return gen
+
+            gens = {f"p{pool[i - 1]['name']}": deco(p) for i, p in zip(ops, pipes)}
+            composed = ProcessingPipelineResolver(gens).resolve([f"p{pool[i - 1]['name']}" for i in ops])
+            b = Plain(composed)
         else:  # resolve_twice
             res = ProcessingPipelineResolver({f"p{pool[i - 1]['name']}": p for i, p in zip(ops, pipes)})
             names = [f"p{pool[i - 1]['name']}" for i in ops]
